@@ -39,6 +39,31 @@ def activation_jobs(quick):
     return jobs
 
 
+def shared_scope_jobs():
+    """Two rules inside one <S>{ } scope, the first with a list of its own (<*>, <A>, <A,B>): its list adds to the scope's conditions for that rule only, and the
+    rules after it still belong to exactly the scope's conditions (round-7 seed C05-r7m1)."""
+    jobs = []
+    n = 0
+    for exA, exB in itertools.product((False, True), repeat=2):
+        for scope in (["B"], ["A"], ["B", "A"], ["INITIAL", "B"]):
+            for own in ('*', ["A"], ["B"], ["INITIAL"], ["A", "B"]):
+                # a list inside a scope adds to the scope's conditions (nested lists accumulate), for this rule only
+                r1 = H.Rule(X, scs='*' if own == '*' else [c for c in CONDS if c in set(scope) | set(own)])
+                r1.prefix_text = "<*>" if own == '*' else "<" + ",".join(own) + ">"
+                r2 = H.Rule(R.alt(X, Y), scs=list(scope))
+                r3 = H.Rule(Z, scs=list(scope))
+                r1.scope_open, r1.in_scope = list(scope), True
+                r2.in_scope, r2.emit_prefix = True, False
+                r3.in_scope, r3.emit_prefix, r3.scope_close = True, False, True
+                g0 = H.Group([("A", exA), ("B", exB)], [r1, r2, r3], "INITIAL", b"xyz", 2, label="shared-scope:%s%s:<%s>{ <%s>x ; x|y ; z }" % (
+                    "x" if exA else "s", "x" if exB else "s", ",".join(scope), own if own == '*' else ",".join(own)))
+                g1 = H.Group([], [], "A", b"xyz", 2, label=g0.label + "@A")
+                g2 = H.Group([], [], "B", b"xyz", 2, label=g0.label + "@B")
+                jobs.append(dict(groups=[g0, g1, g2], tag="shared-%d" % n, knobs={}))
+                n += 1
+    return jobs
+
+
 def stack_groups(api):
     ops = [H.OP_BEGIN, H.OP_PUSH, H.OP_POP, H.OP_TOP, H.OP_RETURN]
     act = H.ops_action(ops, api)
@@ -57,6 +82,8 @@ def run(tier):
     if quick:
         acts = acts[::3] + acts[1::7] + acts[3::8]       # every third spec (each writing in turn) + a second stride; thorough runs all
     jobs += acts
+    sh = shared_scope_jobs()
+    jobs += sh[::2] if quick else sh
     depth = 4 if quick else 8
     for api in ("NR", "R", "C99"):
         ops, gs = stack_groups(api)
